@@ -183,9 +183,22 @@ def corpus_roundtrip():
             seeds.append(open(f).read())
         except Exception:
             pass
+    # string / bytes literal contents: every sequence of <=2 escapes over a boundary set of code points, in both literal kinds
+    import itertools
+    esc = ["\\x00", "\\x01", "\\x07", "\\x09", "\\x0a", "\\x0d", "\\x0f", "\\x10", "\\x1f", "\\x20", "\\x22", "\\x27", "\\x5c",
+           "\\x7e", "\\x7f", "\\0", "\\17", "\\177", "\\n", "\\t", "\\r", "\\\\", "\\'", '\\"', "a", "0", "{", "}", "%"]
+    esc_str = esc + ["\\x80", "\\xff", "\\u00e9", "\\u0100", "\\uffff", "\\U00010000", "\\U0001F600", "\u00e9", "\U0001F600"]
+    for n in (1, 2):
+        for combo in itertools.product(esc, repeat=n):
+            seeds.append('x = b"' + "".join(combo) + '"\n')
+        for combo in itertools.product(esc_str, repeat=n):
+            seeds.append('x = "' + "".join(combo) + '"\n')
+    lit_only = set(seeds[-(len(esc) + len(esc) ** 2 + len(esc_str) + len(esc_str) ** 2):])
     out = []
     for s in seeds:
         out.append(s)
+        if s in lit_only:
+            continue
         toks = c05.tokenize(s)
         if len(toks) <= 60:
             for e in c05.edits1(toks, c05.T2[:20]):
